@@ -8,7 +8,7 @@ BASE_CONSTS = dict(
     Fut=50, ExpSet={0, 1, 3, 4, 50}, ConflictCarriesValue=True,
     FaultKinds=set(), FaultBudget=0,
     Watchers=set(), WatchStarts={0}, WatchPrefixes={0}, PrefixOf="<- MCPrefixOf",
-    CacheSize=2, SubCap=2, RingCap=0, ClearInvalid=True, SeqDetail=False, TsoDetail=False,
+    CacheSize=2, SubCap=2, RingCap=0, ClearInvalid=True, EventBatch=0, SeqDetail=False, TsoDetail=False,
     Readers=set(), ReadRevs={0}, MaxReads=0, SnapAtTs=False, Compactors=set(), CompactRevs=set(), MaxCompacts=0, DelFaults=set(), CompactDetail=False, RecordDetail=False,
     LateCompact=False, EagerSeq=False, FixedOps="<- MCNoFixedOps", LazyWatchers=set(), AtomicWrites=False, GenHist=False,
 )
